@@ -124,8 +124,21 @@ def impl_write_file(c, fo=None):
     fo = fo if fo is not None else io.BytesIO()
     md = None if c["meta"] is None else dict(c["meta"])
     schema_arg = c["raw"] if c["use_raw"] else c["parsed"]
+    records = c["records"]
+    if len(c["records"]) >= 2 and (len(repr(c["raw"])) + len(c["records"])) % 3 == 0:
+        # the records come from a generator that itself writes ANOTHER container file while this one has records pending:
+        # writers must not share anything (the other file is checked too)
+        def gen_records():
+            for i, r in enumerate(c["records"]):
+                if i == 1:
+                    other = io.BytesIO()
+                    fastavro.writer(other, {"type": "record", "name": "Inner", "fields": [{"name": "n", "type": "long"}]}, [{"n": 1}, {"n": 2}], codec="null")
+                    if [x for x in fastavro.reader(io.BytesIO(other.getvalue()))] != [{"n": 1}, {"n": 2}]:
+                        raise RuntimeError("the inner writer's file does not read back")
+                yield r
+        records = gen_records()
     try:
-        core.with_timeout(lambda: fastavro.writer(fo, schema_arg, c["records"], codec=c["codec"], sync_interval=c["si"],
+        core.with_timeout(lambda: fastavro.writer(fo, schema_arg, records, codec=c["codec"], sync_interval=c["si"],
                                                   metadata=md, sync_marker=c["sync"], codec_compression_level=c["level"]), 60)
     except core.Timeout:
         return ("timeout", None)
